@@ -264,7 +264,8 @@ Qed.
 (* ---------- the model satisfies the predicate the check evaluates ---------- *)
 
 Definition mk (f : rfmt) (s e : bytes) (x : bool) (xs : list bytes) : case :=
-  {| c_fmt := f; c_start := s; c_end := e; c_excl := x; c_items := xs;
+  {| c_fmt := f; c_kind := KIndex; c_flags := no_flags;
+     c_start := s; c_end := e; c_excl := x; c_items := xs;
      c_obs := obs_of (run_range f (mkp s e x) xs) |}.
 
 Lemma items_eqb_refl l : items_eqb l l = true.
@@ -297,9 +298,9 @@ Qed.
 Theorem model_meets_spec : forall f s e x xs,
   classify (mk f s e x xs) = 0%N -> spec_ok (mk f s e x xs) = true.
 Proof.
-  intros f s e x xs Hc. unfold spec_ok, mk in *.
-  cbn [c_fmt c_start c_end c_excl c_items c_obs] in *. unfold spec_obs, classify in *.
-  cbn [c_fmt c_start c_end c_excl c_items c_obs] in Hc.
+  intros f s e x xs Hc. unfold spec_ok, classify, mk in *.
+  change (plain_case _) with true in *. cbv iota in *.
+  cbn [c_fmt c_start c_end c_excl c_items c_obs] in *. unfold spec_obs in *.
   assert (Hsub : forall l, range_filter (mkp s e x) xs = Ok l -> is_subseq l xs = true).
   { intros l Hl. apply subseq_is_subseq. apply (range_order _ _ _ _ Hl). }
   pose proof (range_total _ (mkp s e x) xs) as [Hp Hf].
